@@ -87,13 +87,16 @@ type c13Case struct {
 	// RejectFirst: the offer starts with a video section the answerer has no codec for, so the
 	// answer's first m-section is a rejected one (no a=setup in it)
 	RejectFirst bool `json:"reject_first,omitempty"`
+	// Padded: the signaling channel leaves white space behind the a=ice-lite property attribute
+	// (both directions); the line means the same
+	Padded bool `json:"padded,omitempty"`
 }
 
 func c13Gen(seed uint64, idx, total int, tier string) any {
 	r := vfNewRand(seed, "c13")
 	k := idx % 48
 	return &c13Case{LiteA: k&1 != 0, LiteB: k&2 != 0, AnswerRole: (k >> 2) % 3, OfferSetup: []string{"actpass", "active", "passive", "absent"}[(k/12)%4],
-		NetSeed: r.U64(), DelayUs: vfPick(r, []int{0, 1000, 20000}), RejectFirst: (idx/48)%2 == 1}
+		NetSeed: r.U64(), DelayUs: vfPick(r, []int{0, 1000, 20000}), RejectFirst: (idx/48)%2 == 1, Padded: (idx/96)%2 == 1}
 }
 
 func c13Run(t *testing.T, cj []byte, res *vfResult) {
@@ -170,6 +173,9 @@ func c13Run(t *testing.T, cj []byte, res *vfResult) {
 		sent := *full
 		// the signaling channel rewrites the offer's a=setup (A's own copy stays actpass)
 		sent.SDP = vfRewriteLines(full.SDP, func(l string) (string, bool) {
+			if c.Padded && l == "a=ice-lite" {
+				return "a=ice-lite ", true
+			}
 			if strings.HasPrefix(l, "a=setup:") {
 				switch c.OfferSetup {
 				case "absent":
@@ -214,7 +220,16 @@ func c13Run(t *testing.T, cj []byte, res *vfResult) {
 			res.Verdict, res.Detail = "error", "B.SetLocalDescription: "+err.Error()
 			return
 		}
-		if err = a.pc.SetRemoteDescription(*vfGatherDone(b)); err != nil {
+		back := *vfGatherDone(b)
+		if c.Padded {
+			back.SDP = vfRewriteLines(back.SDP, func(l string) (string, bool) {
+				if l == "a=ice-lite" {
+					return "a=ice-lite ", true
+				}
+				return l, true
+			})
+		}
+		if err = a.pc.SetRemoteDescription(back); err != nil {
 			lines = append(lines, "A rejected the answer: "+err.Error())
 			return
 		}
